@@ -506,6 +506,15 @@ Theorem c09_mobs_eq_decided : forall (mk : loc -> list bool) N h h' v v',
   mobs_eq_b mk N h h' v v' = true -> mobs_eq mk h h' v v'.
 Proof. exact mobs_eq_b_sound. Qed.
 
+(** The export masks of the labelled nodes of an exported heap, COMPUTED IN THE KERNEL from the generated tables (the
+    harness only says which census label each exported object has). *)
+Definition masks_of_labels (labels : list (loc * string)) : list (loc * list bool) :=
+  map (fun p => (fst p,
+        match lookup (snd p) all_census, lookup (snd p) class_of_label with
+        | Some c, Some cls => match lookup cls all_export_reads with Some r => obs_mask c r | None => [] end
+        | _, _ => []
+        end)) labels.
+
 (** An accepted completeness certificate (heap exported from a real original + copy, export masks of every labelled
     node from the generated reads tables) + the census obligation ⟹ the real copy is observed equal at every depth. *)
 Theorem c09_export_cert_sound : forall l' old la lc masks N c s reads,
